@@ -849,6 +849,48 @@ func sccBounded(c *Check, a *Anchors, comp []*FuncBody) (bool, string) {
 			return true, "each activation first adds its vertex to the include graph and returns when the vertex already exists: one activation per distinct Taskfile location"
 		}
 	}
+	// (4) decorator delegation: a method whose only call that can resolve to itself is an INTERFACE call of the same method on
+	// a field of its receiver (w.inner.Write(p) inside (*wrapper).Write): the callee is the wrapped object, a different value
+	// fixed at construction, so the recursion is as deep as the wrappers are nested
+	if len(comp) == 1 {
+		f := comp[0]
+		if f.Decl != nil && f.Decl.Recv != nil && len(f.Decl.Recv.List) == 1 && len(f.Decl.Recv.List[0].Names) == 1 {
+			info := f.Info()
+			recv, _ := info.Defs[f.Decl.Recv.List[0].Names[0]].(*types.Var)
+			nSelf, allDelegation := 0, true
+			for _, call := range callsIn(f, true) {
+				fn, _ := callee(info, call).(*types.Func)
+				if fn == nil {
+					continue
+				}
+				if fn == f.Obj {
+					nSelf++
+					allDelegation = false // a static call of itself
+					continue
+				}
+				if fn.Name() != f.Decl.Name.Name {
+					continue
+				}
+				sig, _ := fn.Type().(*types.Signature)
+				if sig == nil || sig.Recv() == nil || !types.IsInterface(sig.Recv().Type()) {
+					continue
+				}
+				nSelf++
+				sel, ok := ast.Unparen(call.Fun).(*ast.SelectorExpr)
+				if !ok {
+					allDelegation = false
+					continue
+				}
+				fsel, ok := ast.Unparen(sel.X).(*ast.SelectorExpr)
+				if !ok || varOf(info, fsel.X) != recv || recv == nil {
+					allDelegation = false
+				}
+			}
+			if nSelf > 0 && allDelegation {
+				return true, "decorator: the method only re-enters itself through an interface call on a field of its receiver — the wrapped value, fixed at construction — so the depth is the nesting depth of the wrappers"
+			}
+		}
+	}
 	return false, ""
 }
 
@@ -3586,7 +3628,26 @@ func nodeIdentityImmutable(c *Check, a *Anchors) {
 					}
 					n++
 					c.Fn(fb)
-					c.Bad("node-identity-immutable", sel.Sel.Name+"@"+tn+"."+fb.Decl.Name.Name, as.Pos(),
+					// the key names WHAT is stored: two different rewrites in one method are two findings
+				src := ""
+				for i, ll := range as.Lhs {
+					if ll == l && i < len(as.Rhs) {
+						r := ast.Unparen(as.Rhs[i])
+						if v := varOf(info, r); v != nil && !v.IsField() {
+							for _, d := range defsOf(info, fb.Body, v) {
+								if dc, ok := ast.Unparen(d).(*ast.CallExpr); ok {
+									src = calleeName(callee(info, dc))
+								}
+							}
+							if src == "" {
+								src = v.Name()
+							}
+						} else {
+							src = exprStr(r)
+						}
+					}
+				}
+				c.Bad("node-identity-immutable", sel.Sel.Name+"<-"+src+"@"+tn+"."+fb.Decl.Name.Name, as.Pos(),
 						fmt.Sprintf("(*%s).%s assigns %s, which Location / CacheKey / ResolveEntrypoint of the node read: after a download the node names another location than before it, so relative includes resolve differently — and hit another cache key — online and offline", tn, fb.Decl.Name.Name, exprStr(sel)))
 				}
 				return true
